@@ -87,11 +87,15 @@ func vpH_c14_payload() {
 	w1, w2 := mk(), mk()
 	top := 21
 	if vpParam("verifyside") != 0 {
-		top = 22 // the config pairs do not depend on map orders: fixed-order configuration only
+		top = 23 // the config pairs and case variants do not depend on map orders: fixed-order configuration only
 	}
 	kind := vpInt(0, top)
 	collide := kind <= 3
 	switch kind {
+	case 23: // a pipeline variable whose name differs from a step variable only in letter case is its own variable
+		vpAssume(x != pv)
+		w1.penv = map[string]string{"a": pv}
+		w2.penv = map[string]string{"a": x}
 	case 22: // plugin config: nil and the empty containers are one value; every scalar (also a falsy one) is its own
 		configs := []any{nil, map[string]any{}, []any{}, false, 0, "", true, "x", 1.5, []any{false}, map[string]any{"k": nil}}
 		i, j := vpInt(0, len(configs)-1), vpInt(0, len(configs)-1)
